@@ -472,8 +472,9 @@ type v6Result struct {
 	Log       []string // canonical observation log
 	Served    []string
 	Nontriv   bool
-	Harness   string // harness error, if any
-	Positive  bool   // a case whose first answer is honest (and nothing prevents delivery): must succeed
+	Harness   string   // harness error, if any
+	Positive  bool     // a case whose first answer is honest (and nothing prevents delivery): must succeed
+	Before    []string // kinds of the answers that arrived before the first honest one
 }
 
 type v6Lifecycle struct{ hooks []fx.Hook }
@@ -729,6 +730,12 @@ func v6Exec(env *v6Env, c v6Case, bubble bool) (res v6Result) {
 	// --- verdict
 	res.Outcome, res.Sig, res.What = v6Judge(c, sqr, out, returned, keys, honestRead, ex, arrived, arrivedBy)
 	res.Log = append(res.Log, "outcome: "+res.Outcome)
+	for _, a := range arrived {
+		if a == "honest" || a == "bs:honest" {
+			break
+		}
+		res.Before = append(res.Before, strings.SplitN(strings.TrimPrefix(a, "bs:"), ":", 2)[0])
+	}
 	res.Positive = v6IsPositive(c)
 	return res
 }
